@@ -276,11 +276,21 @@ func effectiveCallers(p *an.Prog, fn *ssa.Function, allowed []string) []string {
 	seen := map[*ssa.Function]bool{}
 	var rec func(f *ssa.Function, d int)
 	rec = func(f *ssa.Function, d int) {
+		var callers []*ssa.Function
 		for caller := range p.Callers(f) {
 			root := caller
 			for root.Parent() != nil {
 				root = root.Parent()
 			}
+			if root.Synthetic != "" && (strings.HasSuffix(root.Name(), "$thunk") || strings.HasSuffix(root.Name(), "$bound")) {
+				// a method value: the caller that matters is whoever takes the method as a value
+				// (`self.eachJobMetadata((*Metadata).checkedReset)`), not the wrapper
+				callers = append(callers, valueUsers(p, root)...)
+				continue
+			}
+			callers = append(callers, root)
+		}
+		for _, root := range callers {
 			name := an.FnName(root)
 			if ok[name] || d >= 3 || seen[root] {
 				out[name] = true
@@ -362,4 +372,38 @@ func isPrivateHelperOf(p *an.Prog, fn, h *ssa.Function) bool {
 		}
 	}
 	return false
+}
+
+var valueUsersMemo = map[*ssa.Function][]*ssa.Function{}
+
+// valueUsers: the (outermost) functions of the program that use fn as a value (operand of an
+// instruction other than as the callee of a call).
+func valueUsers(p *an.Prog, fn *ssa.Function) []*ssa.Function {
+	if us, ok := valueUsersMemo[fn]; ok {
+		return us
+	}
+	seen := map[*ssa.Function]bool{}
+	var out []*ssa.Function
+	for g := range p.AllFns {
+		if g.Blocks == nil {
+			continue
+		}
+		an.Instrs(g, func(in ssa.Instruction) {
+			for _, op := range in.Operands(nil) {
+				if *op == ssa.Value(fn) {
+					if cl := an.AsCallAny(in); cl != nil && cl.Common().Value == ssa.Value(fn) {
+						continue
+					}
+					o := an.Outermost(g)
+					if !seen[o] {
+						seen[o] = true
+						out = append(out, o)
+					}
+				}
+			}
+		})
+	}
+	sort.Slice(out, func(i, j int) bool { return out[i].String() < out[j].String() })
+	valueUsersMemo[fn] = out
+	return out
 }
